@@ -134,6 +134,19 @@ impl<C: CellType> BcInterpreter<C> {
     }
 }
 
+#[cfg(feature = "verif")]
+impl<C: CellType> BcInterpreter<C> {
+    /// Verification hook: build an interpreter directly from the given bytecode.
+    pub fn verif_from_bc(bytecode: Program<C>) -> Self {
+        BcInterpreter { bytecode }
+    }
+
+    /// Verification hook: access the bytecode that is executed.
+    pub fn verif_bc(&self) -> &Program<C> {
+        &self.bytecode
+    }
+}
+
 impl<C: CellType> Executor<'_, C> for BcInterpreter<C> {
     fn create(code: &str, opt: u32) -> Result<Self, Error> {
         let mut program = ir::Program::<C>::parse(code)?;
